@@ -678,8 +678,23 @@ pub(crate) struct SyncConfig {
     split_factor: usize,
 }
 
+#[cfg(iroh_docs_verif)]
+impl SyncConfig {
+    /// Verification hook: reconciliation parameters chosen by the harness.
+    pub(crate) fn verif_new(max_set_size: usize, split_factor: usize) -> Self {
+        SyncConfig {
+            max_set_size,
+            split_factor,
+        }
+    }
+}
+
 impl Default for SyncConfig {
     fn default() -> Self {
+        #[cfg(iroh_docs_verif)]
+        if let Some((max_set_size, split_factor)) = crate::verif::sync_config() {
+            return SyncConfig::verif_new(max_set_size, split_factor);
+        }
         SyncConfig {
             max_set_size: 1,
             split_factor: 2,
